@@ -2,7 +2,7 @@
 (* Judges indexing, equality and mutation records of signature collections (property C20). *)
 EXTENDS SigClauses
 
-Clauses(r) == CASE r.op = "index" -> ClIndex(r) [] r.op = "eq" -> ClEq(r) [] r.op = "mut" -> ClMut(r)
+Clauses(r) == CASE r.op = "index" -> ClIndex(r) [] r.op = "eq" -> ClEq(r) [] r.op = "mut" -> ClMut(r) [] r.op = "alias" -> ClAlias(r)
 
 ASSUME PrintT(ToJson(Verdict(Recs, Clauses)))
 =============================================================================
